@@ -77,7 +77,17 @@ def run(ctx):
         compare(ctx, 'ALG-18', name, loc(fi, d_[2].lineno), v, want[name], (), vocab=VOCAB, fns=FNS, findings=I.findings,
                 detail_ok={'jlo': 'first index with wavelength < wav_max (array stored in decreasing wavelength)', 'jhi': 'last index with wavelength >= wav_min'}[name])
     # SEDs read in frequency order
-    reads = [c for c in calls(fi.node) if (chain(c.func) or '').endswith('SED.read')]
+    # the reads of the driver and of the helper functions of its module that it calls (a read moved into a helper is still a read of the driver)
+    def reach(f, seen):
+        out = list(calls(f.node))
+        for c in list(out):
+            if isinstance(c.func, ast.Name):
+                r = repo.resolve_name(f.module, c.func.id)
+                if r and r[0] == 'func' and r[1].module is f.module and r[1].qual not in seen:
+                    seen.add(r[1].qual)
+                    out += reach(r[1], seen)
+        return out
+    reads = [c for c in reach(fi, {fi.qual}) if (chain(c.func) or '').endswith('SED.read')]
     orders = [const(kw(c, 'order')) if kw(c, 'order') is not None else 'nu' for c in reads]
     ctx.expect(len(reads) >= 2 and all(o == 'nu' for o in orders), 'ALG-18', 'defining SED and model SEDs read in the same (frequency) order', loc(fi), 'orders %s' % orders,
                'SEDs are read with orders %s: index j would denote different wavelengths' % orders, 'read-order')
